@@ -3,6 +3,7 @@
 import base64
 import binascii
 import datetime
+import decimal
 import re
 
 from .utils import parse_into_datetime
@@ -79,7 +80,12 @@ class FloatConstant(_Constant):
             raise ValueError("must be a float.")
 
     def __str__(self):
-        return "%s" % self.value
+        # The pattern grammar has no exponent notation, which is what str()
+        # produces for very large and very small floats.
+        text = format(decimal.Decimal(repr(self.value)), "f")
+        if "." not in text:
+            text += ".0"
+        return text
 
 
 class BooleanConstant(_Constant):
